@@ -147,3 +147,143 @@ def cli_equivalence(ctx, cov, n):
                                    "what": f"`tupimage display` with {c} puts something else on the terminal than upload_and_display with the same parameters: {', '.join(diffs)} differ "
                                            f"(commands {len(a['tty'])} vs {len(b['tty'])} bytes, placeholder {len(a['disp'])} vs {len(b['disp'])} bytes, exit {a['rc']} vs {b['rc']}; stderr: {a['stderr'][-150:]!r})",
                                    "case": case})
+
+
+# ------------------------------------------------------------------------------ live reconfiguration
+RECONF_VALUES = {
+    "id_space": ["8bit", "16bit", "32bit", "24bit", "8bit_diacritic"],
+    "id_subspace": ["10:12", "100:104", "0:256", "7:8"],
+    "upload_method": ["file", "direct"],
+    "force_upload": [False, True],
+    "fewer_diacritics": [False, True],
+    "max_cols": [3, 7, 40],
+    "max_rows": [2, 5, 20],
+    "scale": [0.5, 1.0, 2.0],
+    "global_scale": [1.0, 0.5],
+    "num_tmux_layers": [0, 1, 2],
+    "background": ["none", 3, "#102030"],
+    "stream_max_size": [2 * 1024 * 1024, 300],
+}
+# (only settings that TupimageTerminal exposes as assignable properties: checked in the child)
+
+
+def _reconf_child(work, cases):
+    """For every case: terminal A is built with config c1, every side-effect-free getter is called once (whatever they
+    memoise is now warm), then the attributes of c2 are assigned on the live object; terminal B is built with c2 directly.
+    Both then serve the same requests, with the same random draws, on fresh databases."""
+    common.scrub_process_env()
+    os.environ["HOME"] = work
+    os.environ["XDG_STATE_HOME"] = os.path.join(work, "state")
+    os.environ["XDG_CONFIG_HOME"] = os.path.join(work, "config")
+    import tupimage
+    import tupimage.id_manager as idm
+    from PIL import Image
+    tty_in = open("/dev/tty", "rb", buffering=0)
+    rnd = _random.Random(7)
+    imgs = []
+    for i, size in enumerate([(23, 11), (9, 30), (64, 64)]):
+        p = os.path.join(work, f"rc-{i}.png")
+        im = Image.new("RGB", size)
+        im.putdata([(rnd.randrange(256), rnd.randrange(256), rnd.randrange(256)) for _ in range(size[0] * size[1])])
+        im.save(p)
+        os.utime(p, ns=(1_700_000_000_000_000_000, 1_700_000_000_000_000_000))
+        imgs.append(p)
+
+    class FixedSecrets:
+        def __init__(self, seed):
+            self.r = _random.Random(seed)
+
+        def randbelow(self, n):
+            return self.r.randrange(n)
+
+        def choice(self, seq):
+            return seq[self.r.randrange(len(seq))]
+
+    saved = idm.secrets
+    out = []
+    try:
+        for ci, (c1, c2) in enumerate(cases):
+            runs = {}
+            for who in ("reconfigured", "fresh"):
+                db = os.path.join(work, f"rc-{os.getpid()}-{ci}-{who}.db")
+                cmd, disp = common.RecStream(), common.RecStream()
+                first = c1 if who == "reconfigured" else c2
+                t = tupimage.TupimageTerminal(out_command=cmd, out_display=disp, in_response=tty_in, id_database=db, terminal_id="rc", session_id="rc",
+                                              config="DEFAULT", redetect_terminal=False, **first)
+                if who == "reconfigured":
+                    for g in ("get_id_space", "get_subspace", "get_upload_method", "get_max_cols_and_rows", "get_cell_size", "get_supported_formats"):
+                        try:
+                            getattr(t, g)()
+                        except Exception:  # noqa
+                            pass
+                    try:
+                        t.get_image_placeholder_mode(7)
+                        t.get_optimal_cols_and_rows(100, 50)
+                        t.get_max_upload_size(t.get_upload_method())
+                    except Exception:  # noqa
+                        pass
+                    for k, v in c2.items():
+                        if not isinstance(getattr(type(t), k, None), property):
+                            raise RuntimeError(f"{k} is not an assignable property of TupimageTerminal")
+                        setattr(t, k, v)
+                idm.secrets = FixedSecrets(4242 + ci)
+                res = []
+                for req in range(4):
+                    n_c, n_d = len(cmd.writes), len(disp.writes)
+                    try:
+                        if req == 0:
+                            r = t.upload_and_display(imgs[0])
+                            val = [r.image_id, r.end_col, r.end_row]
+                        elif req == 1:
+                            r = t.upload_and_display(imgs[1], cols=3)
+                            val = [r.image_id, r.end_col, r.end_row]
+                        elif req == 2:
+                            r = t.assign_id(imgs[2], rows=2)
+                            val = [r.id, r.cols, r.rows]
+                        else:
+                            r = t.upload(imgs[0])
+                            val = [r.id, r.cols, r.rows]
+                    except Exception as e:  # noqa
+                        val = ["EXC", type(e).__name__, str(e)[:120]]
+                    res.append({"val": val, "cmd": b"".join(bytes(w) for w in cmd.writes[n_c:]).hex(), "disp": b"".join(bytes(w) for w in disp.writes[n_d:]).hex()})
+                runs[who] = res
+                for suffix in ("", "-wal", "-shm"):
+                    try:
+                        os.remove(db + suffix)
+                    except OSError:
+                        pass
+            out.append(runs)
+    finally:
+        idm.secrets = saved
+    return out
+
+
+def reconfigure_equivalence(ctx, cov, n):
+    rng = _random.Random(ctx.rng.randrange(2**40))
+    names = sorted(RECONF_VALUES)
+    cases = []
+    for i in range(n):
+        c1 = {k: rng.choice(RECONF_VALUES[k]) for k in names}
+        changed = [names[i % len(names)]] + rng.sample(names, rng.randrange(0, 4))
+        c2 = dict(c1)
+        for k in changed:
+            others = [v for v in RECONF_VALUES[k] if v != c1[k]]
+            c2[k] = rng.choice(others)
+        cases.append((c1, c2))
+    work = ctx.work
+    r = common.in_pty(lambda: _reconf_child(work, cases), timeout=600)
+    if "ok" not in r:
+        ctx.corr_breaks.append({"what": "live-reconfiguration runs failed in the pty sandbox", "error": {k: v for k, v in r.items() if k != "tty"}})
+        return
+    for (c1, c2), runs in zip(cases, r["ok"]):
+        changed = sorted(k for k in c2 if c2[k] != c1[k])
+        case = {"kind": "reconfigure", "before": c1, "after": c2}
+        cov.add({"changed": changed, "after": c2}, klass="reconfigure/" + ",".join(changed[:2]))
+        a, b = runs["reconfigured"], runs["fresh"]
+        for i, (x, y) in enumerate(zip(a, b)):
+            diffs = [k for k in ("val", "cmd", "disp") if x[k] != y[k]]
+            if diffs:
+                ctx.violations.append({"signature": {"class": "stale-configuration-after-reassignment", "changed": changed[:3], "differs": diffs},
+                                       "what": f"a terminal whose settings {changed} were re-assigned on the live object (after every getter had been called once) serves request {i} differently "
+                                               f"from a terminal constructed with the new settings: {', '.join(diffs)} differ (result {x['val']} vs {y['val']})", "case": case})
+                break
